@@ -86,6 +86,10 @@ __CPROVER_requires(__CPROVER_is_fresh(ticks->data, (ticks->n ? ticks->n : 1) * s
 /* instances of "strictly ascending" (by transitivity): x_0 <= x_k <= x_{n-1} */
 __CPROVER_requires((ghost_ticks_ascending && ghost_k < ticks->n) ==> (RAX(ticks, 0) <= RAX(ticks, ghost_k) && RAX(ticks, ghost_k) <= RAX(ticks, ticks->n - 1)))
 __CPROVER_requires((ghost_ticks_ascending && ticks->n > 0) ==> (RAX(ticks, 0) == RAX(ticks, 0) && RAX(ticks, ticks->n - 1) == RAX(ticks, ticks->n - 1)))
+#ifdef NIX_WITNESS   /* replay only: arrays of at most 4 elements mirrored into globals the harness assigns */
+__CPROVER_requires(ticks->n == g_wn && g_wn <= 4 && ghost_ticks_ascending)
+__CPROVER_requires((g_wn > 0 ==> RAX(ticks, 0) == g_w0) && (g_wn > 1 ==> RAX(ticks, 1) == g_w1) && (g_wn > 2 ==> RAX(ticks, 2) == g_w2) && (g_wn > 3 ==> RAX(ticks, 3) == g_w3))
+#endif
 __CPROVER_ensures(/*in-range*/ __CPROVER_return_value.has ==> __CPROVER_return_value.val < ticks->n)
 __CPROVER_ensures(/*LessOrEqual-sound*/ (RAX_F(position) && matching == PositionMatch_LessOrEqual && __CPROVER_return_value.has) ==> RAX(ticks, __CPROVER_return_value.val) <= position)
 __CPROVER_ensures(/*LessOrEqual-largest*/ (RAX_F(position) && matching == PositionMatch_LessOrEqual && ghost_k < ticks->n && RAX(ticks, ghost_k) <= position) ==> (__CPROVER_return_value.has && ghost_k <= __CPROVER_return_value.val))
